@@ -286,8 +286,9 @@ UpdHist(hh, pre, e, r) ==
     [ delivered |-> IF e.a = "Start" \/ back THEN nd ELSE hh.delivered \o nd,
       resetPending |-> IF e.a = "Start" \/ back THEN FALSE ELSE hh.resetPending \/ (e.a = "FetchErr" /\ e.k = "range"),
       procOK |-> hh.procOK \cup okNow,
-      \* ... those processed since the latest start
-      runOK |-> IF e.a = "Start" THEN {} ELSE hh.runOK \cup okNow,
+      \* ... those processed since the latest permitted discontinuity
+      \* (a discontinuity -- restart, or the reset policy going back -- starts a new run of deliveries)
+      runOK |-> IF e.a = "Start" THEN {} ELSE IF back THEN (IF SyncProc THEN SeqToSet(nd) ELSE {}) ELSE hh.runOK \cup okNow,
       started |-> hh.started + (IF e.a = "Start" THEN 1 ELSE 0),
       startFires |-> IF e.a = "Start" THEN sf ELSE hh.startFires + sf,
       afterStop |-> r.s.startD = "none",
